@@ -157,6 +157,15 @@ def cname(t):
     return t.strip('_')
 
 
+ELEM_ALIAS = {'unsigned long': 'size_t', 'unsigned int': 'uint', 'unsigned char': 'uchar', 'unsigned short': 'ushort',
+              'std::size_t': 'size_t'}
+
+
+def canon_elem(t):
+    t = ' '.join(t.split())
+    return ELEM_ALIAS.get(t, t)
+
+
 def ctype(t):
     """C spelling of a C++ type spelling (subset)"""
     t = t.strip()
@@ -164,7 +173,7 @@ def ctype(t):
     t = strip_ns(t)
     m = re.match(r'^(const\s+)?vector<\s*(.+?)\s*>(.*)$', t)
     if m:
-        return 'struct vec_%s%s' % (cname(m.group(2)), m.group(3))
+        return 'struct vec_%s%s' % (cname(canon_elem(m.group(2))), m.group(3))
     m = re.match(r'^(const\s+)?(basic_)?[io]stream(<[^>]*>)?\s*&$', t)
     if m or t in ('ostream &', 'istream &', 'ifstream &', 'ofstream &'):
         return 'struct vstream *'
@@ -522,7 +531,7 @@ class Lowerer:
             qt = qt.rstrip('*& ').strip()
             m = re.match(r'^vector<\s*(.+?)\s*>$', qt)
             if m:
-                return 'vec_' + cname(m.group(1))
+                return 'vec_' + cname(canon_elem(m.group(1)))
             if is_stream(qt):
                 return 'vstream'
             if '<' in qt:
@@ -573,6 +582,12 @@ class Lowerer:
                     ed.insert(s, 'this->')
                     note('implicit-this')
                     return
+            if k == 'ImplicitCastExpr' and n.get('castKind') in ('DerivedToBase', 'UncheckedDerivedToBase'):
+                inner0 = base_strip(n['inner'][0])
+                if inner0.get('kind') != 'CXXThisExpr' and r is not None and not r[2] \
+                        and n['type']['qualType'].strip().endswith('*'):
+                    ed.add(r[0], r[1], ['((%s)(' % ctype(n['type']['qualType']), (r[0], r[1]), '))'])
+                    note('derived-to-base')
             if k == 'CXXMemberCallExpr':
                 callee = n['inner'][0]
                 if callee.get('kind') != 'MemberExpr':
